@@ -128,4 +128,7 @@ theorem renameItemToward_self (x : GenItem) : renameItemToward x x = x := by
 theorem stripOwned_nil (r : Wire.Real) : stripOwned [] r = r := by
   simp [stripOwned]
 
+theorem stripOwnedToward_nil (mi ma : List GenItem) (r : Wire.Real) : stripOwnedToward [] mi ma r = r := by
+  simp [stripOwnedToward]
+
 end Entrait.ObsLemmas
